@@ -7,7 +7,7 @@
     over them are re-checked against the source as it is now. *)
 From Coq Require Import String List Bool Arith.
 From LCGen Require Import RuleTable IssueSites.
-From LC Require Import LoggerDefs LoggerProofs.
+From LC Require Import LoggerDefs LoggerProofs LoggerRefineProofs.
 Import ListNotations.
 
 (* ---------------------------------------------------------------------------------------------- *)
@@ -271,3 +271,88 @@ Example C15_nonvacuous :
                  get_error s 0 = AIssue (wE 9) /\ get_message s 0 = AIssue (wM 1)).
 Proof. exact LoggerProofs.nonvacuous. Qed.
 Print Assumptions C15_nonvacuous.
+
+(* ---------------------------------------------------------------------------------------------- *)
+(** * I. Refinement of an abstract specification (LoggerRefineProofs.v)
+
+    Abstract state [spec] = the list of issues in insertion order.  Abstract operations [spec_step]: append, clear,
+    remove the k-th error ([remove_kth]); [run_spec] = fold_left of them.  [Refines s l := issues s = l /\ Inv s]. *)
+
+(** Every observation of a refining logger is the abstract one: issue(k) is the k-th issue; error/warning/message(k)
+    is the k-th issue of that level in insertion order (null past the end); the per-level counts are the numbers of
+    issues of each level and add up to issueCount(). *)
+Theorem C15_refines_observe : forall s l, Refines s l ->
+  (forall k, get_issue s k = observe (spec_issue l k)) /\
+  (forall lv k, get_level lv s k = observe (spec_of_level lv l k)) /\
+  (forall lv, level_count lv s = spec_count lv l) /\
+  issue_count s = length l /\
+  length l = spec_count LError l + spec_count LWarning l + spec_count LMessage l.
+Proof. exact LoggerRefineProofs.refines_observe. Qed.
+Print Assumptions C15_refines_observe.
+
+Theorem C15_refines_null_iff : forall s l lv k, Refines s l -> (get_level lv s k = ANull <-> level_count lv s <= k).
+Proof. exact LoggerRefineProofs.refines_null_iff. Qed.
+Print Assumptions C15_refines_null_iff.
+
+(** abs commutes, one operation at a time *)
+Theorem C15_refines_add : forall x s l, Refines s l -> Refines (add_issue x s) (l ++ [x]).
+Proof. exact LoggerRefineProofs.refines_add. Qed.
+Print Assumptions C15_refines_add.
+
+Theorem C15_refines_remove_all : forall s, Refines (remove_all s) [].
+Proof. exact LoggerRefineProofs.refines_remove_all. Qed.
+Print Assumptions C15_refines_remove_all.
+
+(** removeError on the issue list, with NO side condition: it removes exactly the k-th error, throws exactly when there
+    is no k-th error, and is never undefined. *)
+Theorem C15_remove_error_abs_commutes : forall s k, Inv s ->
+  match remove_error k s with
+  | Ok s' => remove_kth (has_level LError) k (issues s) = Some (issues s')
+  | ThrowsOutOfRange => remove_kth (has_level LError) k (issues s) = None
+  | UndefinedBehaviour => False
+  end.
+Proof. exact LoggerRefineProofs.remove_error_abs_commutes. Qed.
+Print Assumptions C15_remove_error_abs_commutes.
+
+(** removeError of the last issue: the whole concrete state refines the abstract removal. *)
+Theorem C15_refines_remove_error : forall s l k, Refines s l -> spec_last_error k l ->
+  exists s' l', remove_error k s = Ok s' /\ spec_step (ORemoveError k) l = Some l' /\ Refines s' l' /\
+                l = l' ++ [nth (length l') l (mk_error 0)].
+Proof. exact LoggerRefineProofs.refines_remove_error. Qed.
+Print Assumptions C15_refines_remove_error.
+
+(** adding an error and removing it again restores exactly the previous state (issue list and all three vectors),
+    from ANY state *)
+Theorem C15_add_then_remove_restores : forall s x, i_level x = LError ->
+  remove_error (error_count s) (add_issue x s) = Ok s.
+Proof. exact LoggerRefineProofs.add_then_remove_restores. Qed.
+Print Assumptions C15_add_then_remove_restores.
+
+(** Forward simulation over every operation sequence (unbounded): if, on the specification, every removal asks for
+    the last issue, the real sequence runs to completion, the specification is defined, and the end states are related —
+    hence (C15_refines_observe) every accessor answers as the specification says after any such history. *)
+Theorem C15_refinement_from : forall ops s l, Refines s l -> spec_wf ops l ->
+  exists s' l', run_ops ops s = Ok s' /\ run_spec ops l = Some l' /\ Refines s' l'.
+Proof. exact LoggerRefineProofs.refinement_from. Qed.
+Print Assumptions C15_refinement_from.
+
+Theorem C15_refinement : forall ops, spec_wf ops [] ->
+  exists s l, run_ops ops empty_logger = Ok s /\ run_spec ops [] = Some l /\ Refines s l.
+Proof. exact LoggerRefineProofs.refinement. Qed.
+Print Assumptions C15_refinement.
+
+(** Without the side condition the issue list still follows the specification but the state does not refine it. *)
+Theorem C15_refinement_refuted :
+  exists ops s l, ~ spec_wf ops [] /\ run_ops ops empty_logger = Ok s /\ run_spec ops [] = Some l /\
+                  issues s = l /\ ~ Refines s l /\ get_message s 0 = AThrows.
+Proof. exact LoggerRefineProofs.refinement_refuted. Qed.
+Print Assumptions C15_refinement_refuted.
+
+Example C15_refinement_nonvacuous :
+  let ops := [OAdd (wW 0); ORemoveAll; OAdd (wM 1); OAdd (wE 2); OAdd (wE 3); ORemoveError 1; OAdd (wW 4)] in
+  spec_wf ops [] /\ run_spec ops [] = Some [wM 1; wE 2; wW 4] /\
+  exists s, run_ops ops empty_logger = Ok s /\ Refines s [wM 1; wE 2; wW 4] /\
+            get_error s 0 = AIssue (wE 2) /\ get_warning s 0 = AIssue (wW 4) /\ get_message s 0 = AIssue (wM 1) /\
+            get_error s 1 = ANull.
+Proof. exact LoggerRefineProofs.refinement_nonvacuous. Qed.
+Print Assumptions C15_refinement_nonvacuous.
